@@ -219,7 +219,7 @@ class Infer:
                 if isinstance(n.target, ast.Name):
                     add(n.target.id, ("annot", n.annotation))
             elif isinstance(n, ast.AugAssign):
-                bind_target(n.target, ("assign", n.value))
+                bind_target(n.target, ("aug", n.value))
             elif isinstance(n, (ast.For, ast.AsyncFor)):
                 bind_target(n.target, ("iter", n.iter))
             elif isinstance(n, ast.comprehension):
@@ -444,7 +444,7 @@ class Infer:
         kind = b[0]
         if kind == "param":
             return self._param_type(f, b[1])
-        if kind == "assign":
+        if kind in ("assign", "aug"):
             return self.type_of(b[1], f)
         if kind == "annot":
             return self.ann_type(b[1], f.module)
